@@ -36,10 +36,12 @@ def message(i, n, label=None, longhdr=False):
 
 
 class Case:
-    def __init__(self, name, conf, msg, stages, devmap=(), stdin_mode=False, final_dir='src/new'):
+    def __init__(self, name, conf, msg, stages, devmap=(), stdin_mode=False, final_dir='src/new', exact=False):
         """stages: list of settings lists [(key, value)...], one per rewriting step of the rule, cumulative; the last one is the
-        complete rewrite.  final_dir: where the message is after a successful run."""
+        complete rewrite.  final_dir: where the message is after a successful run.  exact: a case of the exact-size family (only the
+        undisturbed run; a wrong result there is a failing input by itself)."""
         self.name, self.conf, self.msg, self.stages, self.devmap, self.stdin_mode, self.final_dir = name, conf, msg, stages, tuple(devmap), stdin_mode, final_dir
+        self.exact = exact
 
     def spec(self):
         tree = {}
@@ -70,6 +72,112 @@ def cases(tier):
         C.append(Case('longhdr-label-' + sn, md % 'label "lbl"', mh, [[(XL, b'lbl')]]))
         C.append(Case('stdin-label-' + sn, 'stdin {\n\tmatch all label "in" move "%s"\n}\n' % dst, ml, [[(XL, b'old in')]], stdin_mode=True, final_dir='dst/new'))
         C.append(Case('stdin-exdev-' + sn, 'stdin {\n\tmatch all move "%s"\n}\n' % dst, m, [[]], devmap=('%s/tmp' % R,), stdin_mode=True, final_dir='dst/new'))
+    return C
+
+
+def xmessage(to=b'user1', label=None, hdr_block=None, total=None, body=b'the body\nsecond line\n'):
+    """A message with a header block of exactly `hdr_block` bytes (blank line included) and/or exactly `total` bytes."""
+    head = b'To: ' + to + b'@example.com\nX-Id: 1\nSubject: exact sizes\n'
+    if label is not None:
+        head += b'X-Label: ' + label + b'\n'
+    if hdr_block is not None:
+        pad = hdr_block - len(head) - 1 - len(b'X-Pad: \n')
+        assert pad >= 1, (hdr_block, len(head))
+        words = b' '.join(b'%04d' % i for i in range(pad // 5 + 2))[:pad - 1] + b'p'
+        head += b'X-Pad: ' + words + b'\n'
+        assert len(head) + 1 == hdr_block
+    if total is not None:
+        body = ws.text_body(total - len(head) - 1)
+    m = head + b'\n' + body
+    assert total is None or len(m) == total
+    return m
+
+
+def exact_cases(src, tier):
+    """Exact-size family: rewrites in which a header value being built, the header block or the whole message ends exactly on, one
+    below and one above a capacity of the growable buffer it passes through - the X-Label value (128 bytes, doubling), an interpolated
+    add-header / label string (64, doubling), the message as read from its descriptor (buffer_read_fd: 8192, room for half its size
+    after every read); sizes read from the buffer_alloc() calls of the source being checked (tools/lbuf.py).  Undisturbed runs only."""
+    import lbuf
+    C = []
+    md = 'maildir "%s/src" {\n\tmatch %%s\n}\n' % R
+    cap1 = 'header "To" /^([a-z]+)@/'
+    letters = lambda n: bytes(97 + i % 26 for i in range(n))
+    for n in lbuf.exact_lengths(src, 60, 1100 if tier == 'quick' else 4200):
+        old = b' '.join([b'list-%d' % i for i in range(n // 6 + 2)])[:n - 1] + b'x'
+        # an existing X-Label value of n bytes; one that the new label completes to n bytes
+        C.append(Case('exact-relabel-%d' % n, md % 'all label "new"', xmessage(label=old), [[(XL, old + b' new')]], exact=True))
+        lab = letters(27)
+        C.append(Case('exact-relabel-sum-%d' % n, md % ('all label "%s"' % lab.decode()), xmessage(label=old[:n - 28]), [[(XL, old[:n - 28] + b' ' + lab)]], exact=True))
+        # label and add-header values that are a captured text of n bytes, alone and after literal text
+        C.append(Case('exact-label-capture-%d' % n, md % (cap1 + ' label "\\1"'), xmessage(to=letters(n)), [[(XL, letters(n))]], exact=True))
+        C.append(Case('exact-add-header-capture-%d' % n, md % (cap1 + ' add-header "X-Added" "v-\\1"'), xmessage(to=letters(n - 2)),
+                      [[(XA, b'v-' + letters(n - 2))]], exact=True))
+        C.append(Case('exact-label-add-header-%d' % n, md % (cap1 + ' label "\\1" add-header "X-Added" "\\1"'), xmessage(to=letters(n), label=b'old'),
+                      [[(XL, b'old ' + letters(n))], [(XL, b'old ' + letters(n)), (XA, letters(n))]], exact=True))
+    dst = '%s/dst' % R
+    for n in lbuf.exact_lengths(src, 4000, 70000 if tier == 'quick' else 140000, deltas=(-1, 0, 1)) + [12288, 12289, 24576, 24577]:
+        if n < 4000:
+            continue
+        # the whole message has n bytes (what buffer_read_fd reads in one piece or in several); the header block has n bytes
+        C.append(Case('exact-message-%d-label' % n, md % 'all label "lbl"', xmessage(total=n), [[(XL, b'lbl')]], exact=True))
+        if n <= 20000:
+            C.append(Case('exact-header-block-%d-label' % n, md % 'all label "lbl"', xmessage(hdr_block=n), [[(XL, b'lbl')]], exact=True))
+        if n in (8191, 8192, 8193, 16384, 65536):
+            C.append(Case('exact-message-%d-exdev' % n, md % ('all move "%s"' % dst), xmessage(total=n), [[]], devmap=(dst,), final_dir='dst/new', exact=True))
+            C.append(Case('exact-message-%d-stdin' % n, 'stdin {\n\tmatch all label "in" move "%s"\n}\n' % dst, xmessage(total=n), [[(XL, b'in')]],
+                          stdin_mode=True, final_dir='dst/new', exact=True))
+    return C
+
+
+FOLDED = (b'Received: from a.example.com (a.example.com [192.0.2.1])\n\tby mx.example.org with ESMTP id 1234;\n\t Mon, 1 Jan 2024 10:00:00 +0000\n'
+          b'Received: from b.example.com\n by a.example.com;\n  Mon, 1 Jan 2024 09:59:00 +0000\n'
+          b'To: user1@example.com,\n\tuser2@example.com\n'
+          b'Subject: =?UTF-8?Q?caf=C3=A9?=\n =?UTF-8?Q?_au_lait?= and\n\tmore text\n'
+          b'Date: Mon,\n 1 Jan 2024 10:00:00\n +0000\n'
+          b'X-Id: 1\n'
+          b'X-Label: one\n'
+          b'MIME-Version: 1.0\n'
+          b'Content-Type: multipart/mixed;\n\tboundary="b1";\n charset=utf-8\n')
+FOLDED_BODY = (b'preamble\n--b1\nContent-Type: text/plain;\n\tcharset=utf-8\nContent-Transfer-Encoding: quoted-printable\n\nhello =\nworld caf=C3=A9\n'
+               b'--b1\nContent-Type: application/octet-stream;\n name="x"\nContent-Transfer-Encoding: base64\n\naGVsbG8gYXR0YWNobWVudAo=\n--b1--\nepilogue\n')
+
+
+def lookup_cases(tier):
+    """Rewrites that FOLLOW a condition which has looked at the message: folded and encoded header values, a folded Content-Type
+    with a boundary, encoded bodies and attachments are read (unfolded, decoded, split into parts) by header / date / body /
+    attachment conditions, and only then the message is rewritten.  Reading must not change what is written: every original field
+    keeps its value including its folding, the body is byte-identical (Spec.rewriteOk).  Undisturbed runs only."""
+    C = []
+    m = FOLDED + b'\n' + FOLDED_BODY
+    md = 'maildir "%s/src" {\n\tmatch %%s\n}\n' % R
+    dst = '%s/dst' % R
+    conds = [('all', 'all'),
+             ('received', 'header "Received" /ESMTP id/'),
+             ('received2', 'header "Received" /a\\.example\\.com;/'),
+             ('subject', 'header "Subject" /au lait/'),
+             ('to', 'header { "Cc" "To" } /user2/'),
+             ('label', 'header "X-Label" /one/'),
+             ('ctype', 'header "Content-Type" /boundary/'),
+             ('date', 'date > 1 seconds'),
+             ('body', 'body /epilogue/'),
+             ('attachment', 'attachment body /hello attachment/'),
+             ('attachment-header', 'attachment header "Content-Type" /octet-stream/'),
+             ('neg', '! header "Received" /nowhere/ and header "Subject" /text/'),
+             ('or', 'header "Subject" /nothing/ or header "To" /user1/')]
+    if tier == 'quick':
+        acts = [('label', 'label "new"', [[(XL, b'one new')]], (), 'src/new'),
+                ('add-header', 'add-header "X-Added" "v1"', [[(XA, b'v1')]], (), 'src/new'),
+                ('exdev', 'move "%s"' % dst, [[]], (dst,), 'dst/new')]
+    else:
+        acts = [('label', 'label "new"', [[(XL, b'one new')]], (), 'src/new'),
+                ('add-header', 'add-header "X-Added" "v1"', [[(XA, b'v1')]], (), 'src/new'),
+                ('set-subject', 'add-header "Subject" "replaced"', [[(b'Subject', b'replaced')]], (), 'src/new'),
+                ('label-add', 'label "new" add-header "X-Added" "v1"', [[(XL, b'one new')], [(XL, b'one new'), (XA, b'v1')]], (), 'src/new'),
+                ('exdev', 'move "%s"' % dst, [[]], (dst,), 'dst/new')]
+    for cn, cond in conds:
+        for an, act, stages, devmap, fin in acts:
+            C.append(Case('lookup-%s-%s' % (cn, an), md % (cond + ' ' + act), m, stages, devmap=devmap, final_dir=fin, exact=True))
     return C
 
 
@@ -114,7 +222,7 @@ def sweep(tools, case, tier):
         clean = scen.run()
         fs = files_of(clean)
         recs.append({'scenario': case.name, 'plan': None, 'status': clean.status, 'files': fs, 'fired': False, 'stderr': clean.err[-300:].decode('latin-1'), 'call': ''})
-        if clean.status != 0 or len(fs) != 1:
+        if clean.status != 0 or len(fs) != 1 or case.exact:
             return recs, blobs
         for label, fail, fsize, what in plans(case, clean, tier, fs[0][2]):
             scen.reset()
@@ -189,7 +297,7 @@ def judge(case, r, cls):
 
 
 def stage(rep, tools):
-    cs = cases(rep.tier)
+    cs = cases(rep.tier) + exact_cases(tools.sc.src, rep.tier) + lookup_cases(rep.tier)
     recs, blobs = [], {}
     with cf.ThreadPoolExecutor(min(vlib.NCPU, len(cs))) as ex:
         for rr, bb in ex.map(lambda c: sweep(tools, c, rep.tier), cs):
@@ -201,6 +309,21 @@ def stage(rep, tools):
     for r in recs:
         c = by_name[r['scenario']]
         probs, kinds = judge(c, r, cls)
+        if r['plan'] is None and c.exact:
+            key = 'exact sizes: ' + ('as documented' if r['status'] == 0 and not probs else 'WRONG')
+            outcome[key] = outcome.get(key, 0) + 1
+            if r['status'] != 0 or probs:
+                nbad += 1
+                if nbad <= 6:
+                    hdr = c.msg.index(b'\n\n') + 2
+                    rep.finding('unlisted', {'stage': 'process', 'family': 'read before rewrite' if c.name.startswith('lookup-') else 'exact sizes', 'scenario': c.name, 'config': c.conf, 'message_bytes': len(c.msg),
+                                             'header_block_bytes': hdr, 'message_head': c.msg[:hdr][:1500].decode('latin-1'),
+                                             'intended_settings': [[(k.decode(), '%d bytes: %s' % (len(v), (v[:40] + b'...' + v[-20:] if len(v) > 70 else v).decode('latin-1')))
+                                                                    for k, v in st] for st in c.stages],
+                                             'exit_status': r['status'], 'stderr': r['stderr'], 'files_afterwards': kinds,
+                                             'what': probs[:4] or ['exit status %r of an undisturbed run' % r['status']],
+                                             'replay_cmd': 'python3 tools/check.py C08 --replay <this file>'})
+            continue
         if r['plan'] is None:
             if r['status'] != 0 or probs:
                 rep.violation({'obligation': 'C08 process level: the fault-free run of a rewriting scenario is not as the property says',
@@ -217,6 +340,12 @@ def stage(rep, tools):
                                          'replay_cmd': 'python3 tools/check.py C08 --replay <this file>'})
     faults = [r for r in recs if r['plan'] is not None]
     return {
+        'exact_size_scenarios': sum(1 for c in cs if c.exact),
+        'exact_size_rule': 'undisturbed runs in which a value being built, the header block or the whole message ends exactly on, one below and one above a '
+                           'capacity of the growable buffer it passes through (sizes read from the buffer_alloc() calls of the source): existing X-Label value + '
+                           'new label, label / add-header value from a capture alone and after literal text, label + add-header; whole message and header '
+                           'block at 4096 .. 65536 and at 12288 / 24576 (buffer_read_fd), also across devices and in stdin mode; judged like every other run '
+                           '(byte for byte original or accepted by Spec.rewriteOk for the intended settings, exit 0 with the complete rewrite in place)',
         'scenarios': len(cs), 'fault_runs': len(faults), 'faults_fired': sum(1 for r in faults if r['fired']),
         'file_size_limit_runs': sum(1 for r in faults if r['plan'].startswith('fsize=')),
         'distinct_files_judged_by_Spec_rewriteOk': nq, 'outcomes': outcome, 'failing_runs': nbad,
@@ -232,7 +361,7 @@ def stage(rep, tools):
 
 
 def replay(tools, j):
-    cs = [c for c in cases('thorough') if c.name == j.get('scenario')]
+    cs = [c for c in cases('thorough') + exact_cases(tools.sc.src, 'thorough') + lookup_cases('thorough') if c.name == j.get('scenario')]
     if not cs:
         print('unknown scenario', j.get('scenario'))
         return
